@@ -130,7 +130,7 @@ PROPS = {
     },
     "C04": {
         "rules": [shape.rule_shape, shrinking.rule_chirality, shrinking.rule_samesrc, shrinking.rule_declsrc, shrinking.rule_idcmp, shrinking.rule_cutvar, shrinking.rule_cutkind, enums.rule_enum_maps({"core2axcut"}),
-                  fresh.rule_fresh, fresh.rule_maxid, traversal.rule_trav(["core2axcut::shrinking::Shrinking", "scc_core_lang::traits::substitution::SubstVar",
+                  fresh.rule_fresh, fresh.rule_maxid, fresh.rule_counter, traversal.rule_trav(["core2axcut::shrinking::Shrinking", "scc_core_lang::traits::substitution::SubstVar",
                                                                           "scc_core_lang::traits::typed_free_vars::TypedFreeVars"]),
                   inputs.rule_useall_for(["core2axcut"], 35), traversal.rule_siblings],
         "text": "Structural necessary conditions of shrinking: all 18 well-typed (producer, consumer) cut shapes are handled before the "
@@ -166,10 +166,11 @@ PROPS = {
         "rules": [traversal.rule_trav(["scc_core_lang::traits::substitution::Subst", "scc_core_lang::traits::substitution::SubstVar",
                                    "scc_core_lang::traits::uniquify::Uniquify", "scc_core_lang::traits::focus::Focusing",
                                    "scc_core_lang::traits::focus::Bind", "scc_core_lang::traits::typed_free_vars::TypedFreeVars"]), wiring.rule_wire_intra, shape.rule_shape,
-                  fresh.rule_fresh, fresh.rule_maxid, fresh.rule_shadow, fresh.rule_substscope, focus.rule_bindorder, inputs.rule_useall_for(["scc_core_lang"], 100)],
+                  fresh.rule_fresh, fresh.rule_maxid, fresh.rule_counter, fresh.rule_shadow, fresh.rule_substscope, focus.rule_bindorder, inputs.rule_useall_for(["scc_core_lang"], 100)],
         "text": "Structural necessary conditions of focusing: every Subst/SubstVar/Uniquify/Focusing/Bind/TypedFreeVars impl of Core "
                 "visits every subterm (R-TRAV), uniquify dominates the focusing of definitions (R-WIRE), and only producer-only "
-                "shapes reach the `cannot happen` arms of Term<Cns> (R-SHAPE). Does not decide evaluation order or semantic equivalence.",
+                "shapes reach the `cannot happen` arms of Term<Cns> (R-SHAPE); a local copy of the identifier counter that is lent to a "
+                "callee is read again afterwards, so no ids are forgotten (R-COUNTER). Does not decide evaluation order or semantic equivalence.",
         "assumptions": ["evaluation order produced by bind/bind_many and by-name vs once evaluation are properties of computed values, not decided"],
     },
     "C05": {
@@ -183,11 +184,12 @@ PROPS = {
     },
     "C12": {
         "rules": [panics.rule_panic(("B",)), annot.rule_annot_check, annot.rule_annot_freevars, shape.rule_shape,
-                  traversal.rule_trav(["fun::typing::check::Check"]), wiring.rule_wire_intra, hygiene.rule_fvscope, shrinking.rule_cutvar, traversal.rule_siblings, formatting.rule_nameprint, typing_rules.rule_tywf],
+                  traversal.rule_trav(["fun::typing::check::Check"]), wiring.rule_wire_intra, hygiene.rule_fvscope, shrinking.rule_cutvar, traversal.rule_siblings, formatting.rule_nameprint, typing_rules.rule_tywf,
+                  linear.rule_linear_subst, linear.rule_linear_ctx],
         "text": "'No internal failure' clause: every panic-capable site reachable from the post-check stage entry points is audited, "
                 "and the annotation/shape classes are discharged by checked rules rather than trusted: Check sets every annotation on "
                 "every Ok path and visits every subterm (R-ANNOT, R-TRAV), free-variable and closure-environment annotations are set "
-                "before they are read (R-ANNOT, R-WIRE), no well-typed shape reaches a panicking wildcard (R-SHAPE). R-NAMEPRINT: the printers of types and type arguments leave no line-break opportunity when printed as names (print_to_string(None)), so the names of type instances do not depend on the page width; R-SIBLING: renaming and free-variable collection of a node agree on its variable fields.",
+                "before they are read (R-ANNOT, R-WIRE), no well-typed shape reaches a panicking wildcard (R-SHAPE). R-NAMEPRINT: the printers of types and type arguments leave no line-break opportunity when printed as names (print_to_string(None)), so the names of type instances do not depend on the page width; R-SIBLING: renaming and free-variable collection of a node agree on its variable fields. Well-scopedness after linearization - the stage the property names last - is decided by R-LINSUBST and R-LINCTX: over all alias patterns of arguments and environments the inserted substitutions bind pairwise distinct variables and every sub-statement is linearized in the environment it runs in.",
         "assumptions": ["LOOKUP rows (well-scopedness) are the residual trusted base",
                         "that each intermediate program type-checks in its own language is not decided"],
     },
